@@ -497,7 +497,12 @@ class World:
         if K_CLOBBER not in self.known:
             return
         live = {id(a) for a in followers}
-        stale = [a for a in list(old_real.aliases.values()) if id(a) not in live]
+        # wrapper aliases created by Alias.members (parent is an alias) register themselves too; their paths go
+        # through an alias, where no tree member can sit, so they cannot overwrite a live entry
+        stale = [
+            a for a in list(old_real.aliases.values())
+            if id(a) not in live and not (a.parent is not None and a.parent.is_alias)
+        ]
         if not stale:
             return
         if new_real.is_alias:
@@ -766,6 +771,10 @@ class World:
                     fail("lookup-forms", f"lookups of {'.'.join(rel)!r} from {'.'.join(path[:i]) or '<collection>'} disagree: {bad!r} vs the member {real!r}")
                     break
 
+        self._check_lookups_through_aliases(in_tree, fail)
+        if fails:
+            return fails
+
         # alias registry and self-target
         n_direct = n_chain = n_open = n_stale = 0
         for node, path in in_tree:
@@ -828,6 +837,75 @@ class World:
             if ar.resolved and ar.target is ar:
                 fail("no-self-target", f"alias {node.name!r} targets itself")
         return fails
+
+    def _check_lookups_through_aliases(self, in_tree, fail) -> None:
+        """The read side of paths that go through an alias: for every in-tree alias whose chain is completely resolved
+        and ends at a module or class F, every member name of F is looked up through the alias path (dotted, tuple,
+        chained; get_member and []; from the collection and from every ancestor).  Each lookup must give a wrapper alias
+        whose target is the object *currently* stored in F.members under that name; a name that F does not hold (any
+        more) raises KeyError.  Links are followed by identity: nothing is resolved by the check."""
+        n_checked = 0
+        for node, path in in_tree:
+            if node.kind != "alias":
+                continue
+            ar = self.real[node.id]
+            cur, seen_paths = ar, set()
+            while cur.is_alias and cur.resolved and cur.path not in seen_paths:
+                seen_paths.add(cur.path)
+                cur = cur.target
+            if cur.is_alias or not (cur.is_module or cur.is_class):
+                continue
+            final = cur
+            current = dict(final.members)
+            apath = ".".join(path)
+            for name, expected in current.items():
+                n_checked += 1
+                for i in range(len(path)):
+                    anc = self.real[in_tree_lookup(self, path[:i]).id]
+                    rel = [*path[i:], name]
+                    results = {}
+                    for getter in ("get_member", "__getitem__"):
+                        fn = getattr(anc, getter)
+                        results[f"{getter}(dotted)"] = self._try_alias(fn, ".".join(rel))
+                        results[f"{getter}(tuple)"] = self._try_alias(fn, tuple(rel))
+                        cur = anc
+                        for part in rel:
+                            cur = self._try_alias(getattr(cur, getter), part)
+                            if isinstance(cur, str):
+                                break
+                        results[f"{getter}(chained)"] = cur
+                    bad = {
+                        k: (v if isinstance(v, str) else f"{v!r} -> {getattr(v, 'target', None)!r} (id {id(getattr(v, 'target', None)):#x})")
+                        for k, v in results.items()
+                        if isinstance(v, str) or not getattr(v, "is_alias", False) or not v.resolved or v.target is not expected
+                    }
+                    if bad:
+                        fail(
+                            "lookup-through-alias",
+                            f"alias {apath!r} ends at {final.path!r}, which holds {expected!r} (id {id(expected):#x}) under {name!r}; "
+                            f"lookups of {'.'.join(rel)!r} from {'.'.join(path[:i]) or '<collection>'} do not reach it: {bad!r}",
+                        )
+                        return
+            # names the target does not hold are not found through the alias either
+            for name in NAMES:
+                if name in current:
+                    continue
+                for key in (f"{apath}.{name}", (*path, name)):
+                    for getter in ("get_member", "__getitem__"):
+                        got = self._try_alias(getattr(self.mc, getter), key)
+                        if not (isinstance(got, str) and got.startswith("KeyError")):
+                            fail("deleted-gone", f"{getter}({key!r}): {final.path!r} holds no member {name!r}, but the lookup through alias {apath!r} gives {got!r}")
+                            return
+        if n_checked:
+            self.classes["lookups-through-alias-checked"] += n_checked
+
+    def _try_alias(self, fn, key):
+        try:
+            return call("op-raises", fn, key, what=f"{getattr(fn, '__name__', fn)}({key!r})", allowed=(KeyError, *self.allowed_alias_errors))
+        except KeyError as exc:
+            return f"KeyError({exc})"
+        except self.allowed_alias_errors as exc:
+            return f"{type(exc).__name__}"
 
     @staticmethod
     def _try(fn, key):
